@@ -106,10 +106,38 @@ class MaildirRun(StoreRun):
             os.rename(tmp, os.path.join(path, 'new' if recent else 'cur', name))
             await self.refresh()
             return label, [], b''
-        return await super().do(label)
+        try:
+            return await super().do(label)
+        finally:
+            self._note_departures()
+
+    def _folder_keys(self, num: int) -> set:
+        import os
+        keys = set()
+        for sub in ('new', 'cur'):
+            try:
+                names = os.listdir(os.path.join(self.paths[num], sub))
+            except OSError:
+                continue
+            keys.update(name.partition(':')[0] for name in names)
+        return keys
+
+    def _note_departures(self) -> None:
+        """A uid whose file has left the folder (expunged, or moved to another folder) is dead
+        for good: if a file of the same name comes back later (MOVE there and back keeps the
+        maildir key) it is a new message with a new uid, and an EXPUNGE reported for the old
+        uid is right.  Looked at after every label, so a file that never left its folder keeps
+        its entry - a uid record dropped under an existing file stays a false expunge."""
+        if not self.key_of:
+            return
+        present = {num: self._folder_keys(num) for num in self.paths}
+        for (num, uid), key in list(self.key_of.items()):
+            if num in present and key not in present[num]:
+                del self.key_of[(num, uid)]
 
     def message_exists(self, num: int, uid: int) -> bool:
-        """Is the file that carried this uid (when the harness last looked) still there."""
+        """Is the file that carried this uid still there, never having left the folder since
+        the harness saw it under that uid."""
         import os
         key = self.key_of.get((num, uid))
         if key is None or num not in self.paths:
